@@ -30,7 +30,8 @@ type Case struct {
 
 func genStartup(rng *rand.Rand, depth int) vkit.SchedSpec {
 	k := rng.Intn(8)
-	if depth > 0 {
+	if depth > 1 || (depth == 1 && rng.Intn(3) != 0) {
+		// a part of a list may itself be a list (one level deep, one time in three)
 		k = rng.Intn(6)
 	}
 	switch {
@@ -104,6 +105,17 @@ func runCase(res *vkit.Result, c Case) {
 	modelOffs, startupDur := startupModel(c.Startup)
 	total := len(modelOffs)
 	startup := &vkit.RecSchedule{Schedule: c.Startup.Build()}
+	if c.Seed%4 == 1 {
+		// a quarter of the profiles are written as config (lists, lists within lists) and decoded
+		// the way a real run decodes its `startup` section
+		pc, err := vkit.DecodedPool(map[string]any{"type": "once", "times": 1}, c.Startup.ConfMap(), false)
+		if err != nil {
+			fail("startup-rejected", "valid startup section rejected: %v (%s)", err, vkit.JSON(c.Startup.ConfMap()))
+			return
+		}
+		startup = &vkit.RecSchedule{Schedule: pc.StartupSchedule}
+		res.Count("startup_profiles_decoded_from_config", 1)
+	}
 	if l := startup.Schedule.Left(); l != total {
 		fail("profile-count", "startup profile holds %d tokens, documentation model gives %d", l, total)
 		return
@@ -361,6 +373,18 @@ var seeds = []Case{
 	{Startup: vkit.SchedSpec{Kind: "once", N: 3}, Scenario: "slow-first-shot"},
 	{Startup: vkit.SchedSpec{Kind: "instance_step", A: 1, B: 3, N: 1, DurMs: 100}, Scenario: "slow-first-shot"},
 	{Startup: vkit.SchedSpec{Kind: "composite", Parts: []vkit.SchedSpec{{Kind: "once", N: 2}, {Kind: "const", A: 0, DurMs: 100}, {Kind: "once", N: 3}}}, Scenario: "free"},
+	// lists within lists, decoded from config (Seed%4 == 1): a wave written once and used twice, then more
+	{Startup: vkit.SchedSpec{Kind: "composite", Parts: []vkit.SchedSpec{
+		{Kind: "composite", Parts: []vkit.SchedSpec{{Kind: "once", N: 1}, {Kind: "const", A: 0, DurMs: 150}}},
+		{Kind: "composite", Parts: []vkit.SchedSpec{{Kind: "once", N: 1}, {Kind: "const", A: 0, DurMs: 150}}},
+		{Kind: "once", N: 2}}}, Scenario: "free", Seed: 1},
+	{Startup: vkit.SchedSpec{Kind: "composite", Parts: []vkit.SchedSpec{
+		{Kind: "composite", Parts: []vkit.SchedSpec{{Kind: "once", N: 2}, {Kind: "once", N: 1}}},
+		{Kind: "const", A: 0, DurMs: 200}, {Kind: "once", N: 1}}}, Scenario: "free", Seed: 5},
+	{Startup: vkit.SchedSpec{Kind: "composite", Parts: []vkit.SchedSpec{
+		{Kind: "once", N: 1},
+		{Kind: "composite", Parts: []vkit.SchedSpec{{Kind: "const", A: 0, DurMs: 100}, {Kind: "once", N: 2}, {Kind: "const", A: 0, DurMs: 100}}},
+		{Kind: "instance_step", A: 1, B: 3, N: 1, DurMs: 60}, {Kind: "once", N: 1}}}, Scenario: "shared-long", Seed: 9},
 }
 
 // sharedUnlimitedStart: the shortest runs — 16 instances released at once on one shared unlimited
